@@ -203,22 +203,32 @@ func (r *Run) TotalUnlisted() int {
 	return n
 }
 
+func globMatch(pat, s string) bool {
+	pre := strings.HasPrefix(pat, "*")
+	suf := strings.HasSuffix(pat, "*") && len(pat) > 1
+	core := strings.TrimSuffix(strings.TrimPrefix(pat, "*"), "*")
+	switch {
+	case pre && suf:
+		return strings.Contains(s, core)
+	case pre:
+		return strings.HasSuffix(s, core)
+	case suf:
+		return strings.HasPrefix(s, core)
+	}
+	return pat == s
+}
+
+// locusMatch: every key of want must be present in have and match one of its |-separated
+// alternatives (each may carry a leading and/or trailing *).
 func locusMatch(want, have map[string]string) bool {
 	for k, v := range want {
 		hv, ok := have[k]
 		if !ok {
 			return false
 		}
-		if strings.HasSuffix(v, "*") {
-			if !strings.HasPrefix(hv, strings.TrimSuffix(v, "*")) {
-				return false
-			}
-			continue
-		}
-		// alternatives: a|b|c
 		okAny := false
 		for _, alt := range strings.Split(v, "|") {
-			if alt == hv {
+			if globMatch(alt, hv) {
 				okAny = true
 			}
 		}
@@ -247,7 +257,7 @@ func (r *Run) Violate(clause string, locus map[string]string, detail any) string
 		}
 	}
 	r.perCl[clause]++
-	if len(r.classes) < 400 {
+	if len(r.classes) < 20000 {
 		lb, _ := json.Marshal(locus)
 		r.classes[clause+" "+string(lb)]++
 	}
